@@ -1,294 +1,12 @@
-(* Proofs about Linalg/Model_Dist.v (C35). *)
-From LanceV Require Import Common.Base Linalg.Model_Dist.
-From Coq Require Import Ring ZArithRing.
-Local Open Scope Z_scope.
-
-(* ------------------------------------------------------------------------------------------ *)
-(* slices                                                                                      *)
-(* ------------------------------------------------------------------------------------------ *)
-Section SliceFacts.
-  Context {A : Type}.
-
-  Lemma split_exact_some (n : nat) : forall (l h t : list A),
-    split_exact n l = Some (h, t) -> l = h ++ t /\ length h = n.
-  Proof.
-    induction n as [|k IH]; intros l h t H; cbn [split_exact] in H.
-    - inversion H; subst. split; reflexivity.
-    - destruct l as [|a l']; [discriminate|].
-      destruct (split_exact k l') as [[h' r']|] eqn:E; [|discriminate].
-      inversion H; subst. apply IH in E as [E1 E2]. subst l'. split; [reflexivity | cbn; lia].
-  Qed.
-
-  Lemma split_exact_none (n : nat) : forall (l : list A),
-    split_exact n l = None -> (length l < n)%nat.
-  Proof.
-    induction n as [|k IH]; intros l H; cbn [split_exact] in H; [discriminate|].
-    destruct l as [|a l']; [cbn; lia|].
-    destruct (split_exact k l') as [[h' r']|] eqn:E; [discriminate|].
-    apply IH in E. cbn. lia.
-  Qed.
-
-  Lemma split_exact_app (n : nat) : forall (h t : list A),
-    length h = n -> split_exact n (h ++ t) = Some (h, t).
-  Proof.
-    induction n as [|k IH]; intros h t Hl.
-    - destruct h; [reflexivity | discriminate].
-    - destruct h as [|a h']; [discriminate|]. cbn [app split_exact].
-      rewrite IH by (cbn in Hl; lia). reflexivity.
-  Qed.
-
-  (* with enough fuel the whole list is chunked: no "out of fuel" result is ever observed *)
-  Lemma chunks_aux_spec (n : nat) : (0 < n)%nat -> forall (fuel : nat) (l : list A),
-    (length l <= fuel)%nat ->
-    let (cs, r) := chunks_aux fuel n l in
-    l = concat cs ++ r /\ Forall (fun c => length c = n) cs /\ (length r < n)%nat.
-  Proof.
-    intros Hn. induction fuel as [|f IH]; intros l Hl; cbn [chunks_aux].
-    - destruct l; [|cbn in Hl; lia]. cbn. repeat split; [constructor | lia].
-    - destruct (split_exact n l) as [[h t]|] eqn:E.
-      + apply split_exact_some in E as [E1 E2]. subst l.
-        rewrite app_length in Hl.
-        specialize (IH t ltac:(lia)). destruct (chunks_aux f n t) as [cs r].
-        destruct IH as (I1 & I2 & I3). repeat split.
-        * cbn [concat]. rewrite <- app_assoc, <- I1. reflexivity.
-        * constructor; assumption.
-        * exact I3.
-      + apply split_exact_none in E. cbn. repeat split; [constructor | exact E].
-  Qed.
-
-  Lemma chunks_exact_spec (n : nat) (l : list A) : (0 < n)%nat ->
-    let (cs, r) := chunks_exact n l in
-    l = concat cs ++ r /\ Forall (fun c => length c = n) cs /\ (length r < n)%nat.
-  Proof. intro Hn. unfold chunks_exact. apply chunks_aux_spec; [exact Hn | lia]. Qed.
-
-  (* the result does not depend on the fuel once it is large enough *)
-  Lemma chunks_aux_fuel (n : nat) : (0 < n)%nat -> forall (f1 f2 : nat) (l : list A),
-    (length l <= f1)%nat -> (length l <= f2)%nat -> chunks_aux f1 n l = chunks_aux f2 n l.
-  Proof.
-    intros Hn. induction f1 as [|f1 IH]; intros f2 l H1 H2.
-    - destruct l; [|cbn in H1; lia]. destruct f2; cbn [chunks_aux]; [reflexivity|].
-      destruct n; [lia|]. reflexivity.
-    - destruct f2 as [|f2].
-      + destruct l; [|cbn in H2; lia]. cbn [chunks_aux]. destruct n; [lia|]. reflexivity.
-      + cbn [chunks_aux]. destruct (split_exact n l) as [[h t]|] eqn:E; [|reflexivity].
-        apply split_exact_some in E as [E1 E2]. subst l. rewrite app_length in H1, H2.
-        rewrite (IH f2 t) by lia. reflexivity.
-  Qed.
-
-  Lemma chunks_exact_app (n : nat) (h t : list A) : (0 < n)%nat -> length h = n ->
-    chunks_exact n (h ++ t) = (h :: fst (chunks_exact n t), snd (chunks_exact n t)).
-  Proof.
-    intros Hn Hh. unfold chunks_exact. rewrite app_length.
-    replace (length h + length t)%nat with (S (length h + length t - 1)) by lia.
-    cbn [chunks_aux]. rewrite split_exact_app by exact Hh.
-    rewrite (chunks_aux_fuel n Hn _ (length t) t) by lia.
-    destruct (chunks_aux (length t) n t); reflexivity.
-  Qed.
-
-  Lemma chunks_exact_short (n : nat) (l : list A) : (length l < n)%nat ->
-    chunks_exact n l = ([], l).
-  Proof.
-    intro H. unfold chunks_exact. destruct (length l) eqn:E; [reflexivity|].
-    cbn [chunks_aux]. destruct (split_exact n l) as [[h t]|] eqn:E2; [|reflexivity].
-    apply split_exact_some in E2 as [E3 E4]. subst l. rewrite app_length in E. lia.
-  Qed.
-
-End SliceFacts.
-
-(* two slices of equal length are chunked in lock step *)
-Lemma chunks_exact_parallel {A B : Type} (n : nat) : (0 < n)%nat -> forall (x : list A) (y : list B),
-  length x = length y ->
-  length (fst (chunks_exact n x)) = length (fst (chunks_exact n y)) /\
-  length (snd (chunks_exact n x)) = length (snd (chunks_exact n y)).
-Proof.
-  intros Hn x. remember (length x) as m eqn:Hm. revert x Hm.
-  induction m as [m IH] using lt_wf_ind. intros x Hm y Hy.
-  destruct (Nat.lt_ge_cases (length x) n) as [Hlt|Hge].
-  - rewrite (chunks_exact_short n x) by exact Hlt.
-    rewrite (chunks_exact_short n y) by lia. cbn. split; [reflexivity | lia].
-  - rewrite <- (firstn_skipn n x), <- (firstn_skipn n y).
-    rewrite (chunks_exact_app n (firstn n x)) by (try rewrite firstn_length; lia).
-    rewrite (chunks_exact_app n (firstn n y)) by (try rewrite firstn_length; lia).
-    cbn [fst snd length].
-    destruct (IH (length (skipn n x)) ltac:(rewrite skipn_length; lia) (skipn n x) eq_refl (skipn n y))
-      as [I1 I2]; [rewrite !skipn_length; lia|].
-    split; [f_equal; exact I1 | exact I2].
-Qed.
-
-Lemma combine_app_eq {A B : Type} : forall (a c : list A) (b d : list B),
-  length a = length b -> combine (a ++ c) (b ++ d) = combine a b ++ combine c d.
-Proof.
-  induction a as [|x a IH]; intros c b d H; destruct b as [|y b]; try discriminate; cbn.
-  - reflexivity.
-  - f_equal. apply IH. cbn in H. lia.
-Qed.
-
-Lemma concat_length_uniform {A : Type} (n : nat) : forall cs : list (list A),
-  Forall (fun c => length c = n) cs -> length (concat cs) = (length cs * n)%nat.
-Proof.
-  induction cs as [|c cs IH]; intro H; [reflexivity|].
-  inversion H; subst. cbn. rewrite app_length, IH by assumption. lia.
-Qed.
-
-(* ------------------------------------------------------------------------------------------ *)
-(* lane-wise accumulation = the scalar definition, in any commutative ring                      *)
-(* ------------------------------------------------------------------------------------------ *)
-Section RingFacts.
-  Variable R : Type.
-  Variables (r0 r1 : R) (radd rmul rsub : R -> R -> R) (ropp : R -> R).
-  Hypothesis Rth : ring_theory r0 r1 radd rmul rsub ropp (@eq R).
-  Add Ring Rring : Rth.
-
-  Local Notation ssum := (sum_spec r0 radd).
-  Local Notation rsum' := (rsum r0 radd).
-
-  Lemma fold_left_radd : forall l a, fold_left radd l a = radd a (ssum l).
-  Proof.
-    induction l as [|x l IH]; intro a; cbn [fold_left sum_spec fold_right].
-    - ring.
-    - rewrite IH. cbn [sum_spec]. ring.
-  Qed.
-
-  Lemma rsum_spec : forall l, rsum' l = ssum l.
-  Proof. intro l. unfold rsum. rewrite fold_left_radd. ring. Qed.
-
-  Lemma ssum_app : forall l1 l2, ssum (l1 ++ l2) = radd (ssum l1) (ssum l2).
-  Proof.
-    induction l1 as [|x l1 IH]; intro l2; cbn [app sum_spec fold_right].
-    - ring.
-    - change (fold_right radd r0 (l1 ++ l2)) with (ssum (l1 ++ l2)). rewrite IH. cbn [sum_spec]. ring.
-  Qed.
-
-  Lemma ssum_repeat0 : forall n, ssum (repeat r0 n) = r0.
-  Proof.
-    induction n as [|n IH]; cbn [repeat sum_spec fold_right]; [reflexivity|].
-    change (fold_right radd r0 (repeat r0 n)) with (ssum (repeat r0 n)). rewrite IH. ring.
-  Qed.
-
-  Section TwoArg.
-    Variable f : R -> R -> R.
-    Local Notation pf := (fun p : R * R => f (fst p) (snd p)).
-
-    Lemma lane_acc_length : forall sums xs ys, length (lane_acc radd f sums xs ys) = length sums.
-    Proof.
-      induction sums as [|s sums IH]; intros xs ys; [reflexivity|].
-      destruct xs as [|x xs]; [reflexivity|]. destruct ys as [|y ys]; [reflexivity|].
-      cbn [lane_acc length]. rewrite IH. reflexivity.
-    Qed.
-
-    Lemma lane_acc_sum : forall sums xs ys, length xs = length sums -> length ys = length sums ->
-      ssum (lane_acc radd f sums xs ys) = radd (ssum sums) (ssum (map pf (combine xs ys))).
-    Proof.
-      induction sums as [|s sums IH]; intros xs ys Hx Hy.
-      - destruct xs; [|discriminate]. cbn. ring.
-      - destruct xs as [|x xs]; [discriminate|]. destruct ys as [|y ys]; [discriminate|].
-        cbn [lane_acc combine map sum_spec fold_right fst snd].
-        change (fold_right radd r0 (lane_acc radd f sums xs ys)) with (ssum (lane_acc radd f sums xs ys)).
-        rewrite IH by (cbn in Hx, Hy; lia). cbn [sum_spec]. ring.
-    Qed.
-
-    Lemma lanes_fold (n : nat) : forall (cx cy : list (list R)) (sums : list R),
-      length sums = n -> Forall (fun c => length c = n) cx -> Forall (fun c => length c = n) cy ->
-      length cx = length cy ->
-      ssum (fold_left (fun s c => lane_acc radd f s (fst c) (snd c)) (combine cx cy) sums)
-      = radd (ssum sums) (ssum (map pf (combine (concat cx) (concat cy)))).
-    Proof.
-      induction cx as [|a cx IH]; intros cy sums Hs Fx Fy Hl.
-      - destruct cy; [|discriminate]. cbn. ring.
-      - destruct cy as [|b cy]; [discriminate|]. inversion Fx; subst. inversion Fy; subst.
-        cbn [combine fold_left fst snd concat].
-        rewrite IH; [| rewrite lane_acc_length; assumption | assumption | assumption | cbn in Hl; lia].
-        rewrite lane_acc_sum by lia.
-        rewrite combine_app_eq by lia. rewrite map_app, ssum_app. ring.
-    Qed.
-
-    Theorem lanes2_eq (n : nat) (xs ys : list R) : (0 < n)%nat -> length xs = length ys ->
-      lanes2 r0 radd f n xs ys = ssum (map pf (combine xs ys)).
-    Proof.
-      intros Hn Hlen. unfold lanes2.
-      pose proof (chunks_exact_spec n xs Hn) as Hx. pose proof (chunks_exact_spec n ys Hn) as Hy.
-      pose proof (chunks_exact_parallel n Hn xs ys Hlen) as [Hc Hr].
-      destruct (chunks_exact n xs) as [xc xr]. destruct (chunks_exact n ys) as [yc yr].
-      cbn [fst snd] in Hc, Hr. destruct Hx as (Ex & Fx & _). destruct Hy as (Ey & Fy & _).
-      assert (Hs : match xr with [] => r0 | _ :: _ => rsum' (map pf (combine xr yr)) end
-                   = ssum (map pf (combine xr yr))).
-      { destruct xr; [destruct yr; [reflexivity | discriminate] | apply rsum_spec]. }
-      rewrite Hs, rsum_spec. rewrite (lanes_fold n) by (try apply repeat_length; assumption).
-      rewrite ssum_repeat0. rewrite Ex, Ey at 2.
-      rewrite combine_app_eq
-        by (rewrite (concat_length_uniform n xc Fx), (concat_length_uniform n yc Fy); lia).
-      rewrite map_app, ssum_app. ring.
-    Qed.
-  End TwoArg.
-
-  Section OneArg.
-    Variable g : R -> R.
-
-    Lemma lane_acc1_length : forall sums xs, length (lane_acc1 radd g sums xs) = length sums.
-    Proof.
-      induction sums as [|s sums IH]; intros xs; [reflexivity|].
-      destruct xs as [|x xs]; [reflexivity|]. cbn [lane_acc1 length]. rewrite IH. reflexivity.
-    Qed.
-
-    Lemma lane_acc1_sum : forall sums xs, length xs = length sums ->
-      ssum (lane_acc1 radd g sums xs) = radd (ssum sums) (ssum (map g xs)).
-    Proof.
-      induction sums as [|s sums IH]; intros xs Hx.
-      - destruct xs; [|discriminate]. cbn. ring.
-      - destruct xs as [|x xs]; [discriminate|].
-        cbn [lane_acc1 map sum_spec fold_right].
-        change (fold_right radd r0 (lane_acc1 radd g sums xs)) with (ssum (lane_acc1 radd g sums xs)).
-        rewrite IH by (cbn in Hx; lia). cbn [sum_spec]. ring.
-    Qed.
-
-    Lemma lanes1_fold (n : nat) : forall (cx : list (list R)) (sums : list R),
-      length sums = n -> Forall (fun c => length c = n) cx ->
-      ssum (fold_left (fun s c => lane_acc1 radd g s c) cx sums)
-      = radd (ssum sums) (ssum (map g (concat cx))).
-    Proof.
-      induction cx as [|a cx IH]; intros sums Hs Fx.
-      - cbn. ring.
-      - inversion Fx; subst. cbn [fold_left concat].
-        rewrite IH; [| rewrite lane_acc1_length; reflexivity | assumption].
-        rewrite lane_acc1_sum by lia. rewrite map_app, ssum_app. ring.
-    Qed.
-
-    Theorem lanes1_eq (n : nat) (xs : list R) : (0 < n)%nat ->
-      lanes1 r0 radd g n xs = ssum (map g xs).
-    Proof.
-      intros Hn. unfold lanes1.
-      pose proof (chunks_exact_spec n xs Hn) as Hx.
-      destruct (chunks_exact n xs) as [xc xr]. destruct Hx as (Ex & Fx & _).
-      assert (Hs : match xr with [] => r0 | _ :: _ => rsum' (map g xr) end = ssum (map g xr)).
-      { destruct xr; [reflexivity | apply rsum_spec]. }
-      rewrite Hs, rsum_spec. rewrite (lanes1_fold n) by (try apply repeat_length; assumption).
-      rewrite ssum_repeat0. rewrite Ex at 2. rewrite map_app, ssum_app. ring.
-    Qed.
-  End OneArg.
-
-  (* C35, generic statements *)
-  Theorem l2_scalar_eq (LANES : nat) (x y : list R) : (0 < LANES)%nat -> length x = length y ->
-    l2_scalar r0 radd rsub rmul LANES x y = l2_spec r0 radd rsub rmul x y.
-  Proof. intros. unfold l2_scalar, l2_spec. apply lanes2_eq; assumption. Qed.
-
-  Lemma ssum_map_ext {A} (h1 h2 : A -> R) : forall l, (forall a, h1 a = h2 a) -> ssum (map h1 l) = ssum (map h2 l).
-  Proof. intros l H. f_equal. apply map_ext. exact H. Qed.
-
-  Lemma combine_swap_sum (h : R -> R -> R) : forall (x y : list R),
-    ssum (map (fun p => h (fst p) (snd p)) (combine x y)) = ssum (map (fun p => h (snd p) (fst p)) (combine y x)).
-  Proof.
-    induction x as [|a x IH]; intros [|b y]; try reflexivity.
-    cbn [combine map sum_spec fold_right fst snd]. f_equal. apply IH.
-  Qed.
-
-  Theorem dot_scalar_eq (LANES : nat) (x y : list R) : (0 < LANES)%nat -> length x = length y ->
-    dot_scalar r0 radd rmul LANES x y = dot_spec r0 radd rmul x y.
-  Proof.
-    intros Hn Hl. unfold dot_scalar, dot_spec. rewrite lanes2_eq by (try assumption; lia).
-    rewrite combine_swap_sum. apply ssum_map_ext. intros [a b]. cbn. ring.
-  Qed.
-
-  Theorem norm_sq_impl_eq (LANES : nat) (x : list R) : (0 < LANES)%nat ->
-    norm_sq_impl r0 radd rmul LANES x = normsq_spec r0 radd rmul x.
-  Proof. intros. unfold norm_sq_impl, normsq_spec. apply lanes1_eq; assumption. Qed.
-End RingFacts.
+(* Proofs about Linalg/Model_Dist.v (C35): umbrella file.
+     Proofs_Dist_Slices   chunks_exact / chunks
+     Proofs_Dist_Ring     lane-wise accumulation = scalar definition in any commutative ring
+     Proofs_Dist_Kernels  the instance at Z: l2 / dot / norm per element type, u32 -> f32 rounding
+     Proofs_Dist_Hamming  hamming = number of differing bits
+     Proofs_Dist_Batch    batch variants = the kernel mapped over the rows
+     Proofs_Dist_Argmin   argmin family
+     Proofs_Dist_Assign   nearest-centroid assignment
+     Proofs_Dist_Cosine   cosine distance (scalar path and explicit-SIMD f32 path) *)
+From LanceV Require Export Linalg.Proofs_Dist_Slices Linalg.Proofs_Dist_Ring Linalg.Proofs_Dist_Kernels
+  Linalg.Proofs_Dist_Hamming Linalg.Proofs_Dist_Batch Linalg.Proofs_Dist_Argmin Linalg.Proofs_Dist_Assign
+  Linalg.Proofs_Dist_Cosine Linalg.Proofs_Dist_Arrow Linalg.Proofs_Dist_KMode Linalg.Proofs_Dist_Argmax.
